@@ -229,6 +229,12 @@ theorem facts_write_atomic :
     Facts.C15.frameOnceUS = true ∧ Facts.C15.writeAtomicUS = true :=
   ⟨by decide, by decide, by decide, by decide⟩
 
+/-- **Every sender takes the modelled path**: session.py calls `transport.write` only inside
+`_send_message` (responses, requests, notifications, batches all go through it and its
+`max_send_delay` wrapper), and the transports call the asyncio transport's `write` only inside
+their own `write` (call-site facts regenerated from the source each run). -/
+theorem facts_single_write_path : Facts.C15.singleWritePath = true := by decide
+
 /-- **The stall abort is unconditional**: `_send_message` awaits the write under
 `timeout_after(self.max_send_delay)`; its `except TaskTimeout:` awaits `self.abort()` under no
 condition and re-raises; `transport.abort()` calls `abort()` on the asyncio transport also when it
